@@ -247,6 +247,21 @@ Proof.
   - intros H; inversion H; auto with memo.
 Qed.
 
+(* the argument list Cache.Set sees after a call holds the same values as before it (only Reference flags change) *)
+Lemma call_shape_fst : forall ps args a b c sargs,
+  call_shape ps args = Some (a, b, c, sargs) -> map fst sargs = map fst args.
+Proof.
+  unfold call_shape. intros ps args a b c sargs H.
+  destruct (is_variadic ps).
+  - destruct (length (spread_last (map fst args)) <? length ps - 1); try discriminate.
+    inversion H; subst. clear H.
+    assert (E : map fst (firstn (length ps - 1) args ++ map (fun a : value * bool => (fst a, false)) (skipn (length ps - 1) args))
+                = map fst args).
+    { rewrite map_app, map_map. simpl. rewrite <- map_app, firstn_skipn. auto. }
+    destruct (rev (map fst args)) as [|v r]; auto. destruct v; auto.
+  - destruct (length (map fst args) =? length ps); inversion H; subst; auto.
+Qed.
+
 (* ================================================================ the evaluator keeps the node invariant *)
 Section GoodEv.
   Variable ev : state -> nat -> expr -> res * state.
@@ -293,7 +308,7 @@ Section GoodEv.
     destruct (nth_error (st_heap st) fr) as [cur|]; [|inversion H; auto with memo].
     destruct (nth_error (st_heap st) (if same_fn cur d env then fr else env)) as [pf|];
       [|inversion H; auto with memo].
-    destruct (call_shape (fd_params fd) (map fst args)) as [[[cps cpv] dots]|].
+    destruct (call_shape (fd_params fd) args) as [[[[cps cpv] dots] sargs]|] eqn:CS.
     2:{ inversion H; subst. split; simpl; [discriminate|].
       constructor; [|constructor]. apply node_all_call. split; [|constructor].
       repeat split; try discriminate; auto. }
@@ -303,15 +318,16 @@ Section GoodEv.
       pose proof (Hev _ _ _ _ _ EB) as [GA GB].
       destruct (r_oc rb) as [v| |]; try (inversion H; subst; split; auto; fail).
       simpl in H.
-      assert (Hnode : forall d, (d = DStored -> r_miss rb = 0 /\ is_err v = false /\ has_function v = false /\ key_ok args = true) ->
+      pose proof (call_shape_fst _ _ _ _ _ _ CS) as SF.
+      assert (Hnode : forall d, (d = DStored -> r_miss rb = 0 /\ is_err v = false /\ has_function v = false /\ key_ok sargs = true) ->
                         (counting_in (r_tr rb) = true -> d = DMiss \/ d = DSetup) -> d <> DHit ->
                         trace_all node_ok [EvCall (fd_key fd) (map fst args) (r_tr rb) 0 (r_miss rb) v (r_out rb) d]).
       { intros dd H1 H2 H3. constructor; [|constructor]. apply node_all_call. split; auto.
         unfold node_ok. split; [|split].
         - intros Hd. destruct (H1 Hd) as [A [B [C D]]]. unfold key_ok in D. apply andb_prop in D. destruct D as [D1 D2].
           split; [auto|]. split; [auto|]. split; [auto|]. split.
-          + apply Z.leb_le in D1. rewrite map_length. auto.
-          + rewrite forallb_forall in *. intros x Hx. apply in_map_iff in Hx. destruct Hx as [[x1 x2] [Hx1 Hx2]]. simpl in Hx1. subst.
+          + apply Z.leb_le in D1. rewrite <- SF, map_length. auto.
+          + rewrite <- SF. rewrite forallb_forall in *. intros x Hx. apply in_map_iff in Hx. destruct Hx as [[x1 x2] [Hx1 Hx2]]. simpl in Hx1. subst.
             apply D2 in Hx2. unfold arg_hashable in Hx2. apply andb_prop in Hx2. tauto.
         - exact H2.
         - intros Hd. congruence. }
@@ -325,7 +341,7 @@ Section GoodEv.
           - apply Hnode; auto. + intros; congruence. + intros HC; exfalso; auto. }
         destruct (is_err v) eqn:EV; [inversion H; subst; apply FIN; discriminate|].
         destruct (has_function v) eqn:EF; [inversion H; subst; apply FIN; discriminate|].
-        destruct (key_ok args) eqn:EK; simpl in H; [|inversion H; subst; apply FIN; discriminate].
+        destruct (key_ok sargs) eqn:EK; simpl in H; [|inversion H; subst; apply FIN; discriminate].
         destruct on; [|inversion H; subst; apply FIN; discriminate].
         inversion H; subst. split; cbn [r_tr r_miss].
         * rewrite counting_in_single_call. intros HC; exfalso; auto.
@@ -616,7 +632,7 @@ Section LoggedEv.
     destruct (nth_error (st_heap st) fr) as [cur|]; [|inversion H; subst; apply wl_same; auto].
     destruct (nth_error (st_heap st) (if same_fn cur d env then fr else env)) as [pf|];
       [|inversion H; subst; apply wl_same; auto].
-    destruct (call_shape (fd_params fd) (map fst args)) as [[[cps cpv] dots]|]; [|inversion H; subst; apply wl_same; auto].
+    destruct (call_shape (fd_params fd) args) as [[[[cps cpv] dots] sargs]|]; [|inversion H; subst; apply wl_same; auto].
     match type of H with context [bind_params ?a ?b ?c ?d ?e ?f ?g] =>
       pose proof (bind_params_cache a d e b c f g) as BC0; destruct (bind_params a b c d e f g) as [before tr st2a|before tr st2|] end.
     - simpl in BC0.
@@ -633,7 +649,7 @@ Section LoggedEv.
       + destruct (negb (before + r_miss rb =? before)); [inversion H; subst; apply INNER|].
         destruct (is_err v); [inversion H; subst; apply INNER|].
         destruct (has_function v); [inversion H; subst; apply INNER|].
-        destruct (negb (key_ok args)); [inversion H; subst; apply INNER|].
+        destruct (negb (key_ok sargs)); [inversion H; subst; apply INNER|].
         destruct on; [|inversion H; subst; apply INNER].
         inversion H; subst. intros ce Hce. simpl in Hce. apply in_cache_put in Hce. destruct Hce as [Hce|Hce].
         * destruct (INNER DStored (r_log rb) 0 ce Hce) as [A|A]; auto.
